@@ -17,7 +17,15 @@ def setup_ops(rng, cfg):
         if cfg["dyn"]:
             ops.append(f"{o} set dynamic_payloads T")
         else:
-            ops += [f"{o} set dynamic_payloads F", f"{o} set payload_length {cfg['plen']}"]
+            ops.append(f"{o} set dynamic_payloads F")
+            if cfg.get("detour"):
+                # the same compatible configuration reached by another history: a per-pipe length first (the target
+                # pipe on another length, pipe 0 possibly already on the final one), then the all-pipes setter with
+                # a value that pipe 0 may already hold (seeded change C01-s22: "nothing changes" early return)
+                ops.append(f"{o} set_payload_length {rng.choice([1, 16, 31, rng.randint(1, 32)])} {pipe}")
+                if rng.random() < 0.6:
+                    ops.append(f"{o} set_payload_length {cfg['plen']} 0")
+            ops.append(f"{o} set payload_length {cfg['plen']}")
             if o == "b" and cfg.get("mixed"):
                 # the receiver's other pipes expect other static lengths: only pipe `pipe` has the sender's
                 lens = [rng.randint(1, 32) for _ in range(6)]
@@ -39,7 +47,8 @@ def setup_ops(rng, cfg):
 def rand_cfg(rng):
     return {"aw": rng.choice([3, 4, 5]), "pipe": rng.randrange(6), "ch": rng.randint(0, 125),
             "rate": rng.choice([1, 2, 250]), "crc": rng.choice([0, 1, 2]), "aa": rng.random() < 0.8,
-            "dyn": rng.random() < 0.5, "plen": rng.randint(1, 32), "dynack": rng.random() < 0.5,
+            "dyn": rng.random() < 0.5, "plen": rng.choice([32, rng.randint(1, 32), rng.randint(1, 32)]),
+            "detour": rng.random() < 0.4, "dynack": rng.random() < 0.5,
             "mixed": rng.random() < 0.5}
 
 
